@@ -72,25 +72,25 @@ package round
 //@ func (*Helper).HashForID
 //@   nopanic[C05,C17]
 //@   sequential
-//@   requires h != nil && !excl(h.mtx)
+//@   requires h != nil && !held(h.mtx)
 //@   modifies nothing
 //@   allocates
-//@   ensures !excl(h.mtx) && result != nil && result.h != nil
+//@   ensures !held(h.mtx) && result != nil && result.h != nil
 
 //@ func (*Helper).Hash
 //@   nopanic[C05,C17]
 //@   sequential
-//@   requires h != nil && !excl(h.mtx)
+//@   requires h != nil && !held(h.mtx)
 //@   modifies nothing
 //@   allocates
-//@   ensures !excl(h.mtx) && result != nil && result.h != nil
+//@   ensures !held(h.mtx) && result != nil && result.h != nil
 
 //@ func (*Helper).UpdateHashState
 //@   nopanic[C05,C17]
 //@   sequential
-//@   requires h != nil && !excl(h.mtx) && hashable(value)
+//@   requires h != nil && !held(h.mtx) && hashable(value)
 //@   modifies hstate(h.hash)
-//@   ensures !excl(h.mtx)
+//@   ensures !held(h.mtx)
 
 //@ func (*Helper).BroadcastMessage
 //@   nopanic[C05]
@@ -115,3 +115,17 @@ package round
 //@   modifies nothing
 //@   allocates
 //@   ensures typeis(result, *Abort) && result != nil
+
+// ---- session construction (C20, C09): a session exists only for a duplicate-free party list that contains the
+// caller and a threshold 0 <= t <= n-1; otherwise an error and no session.
+//@ func NewSession
+//@   nopanic[C05,C20]
+//@   modifies nothing
+//@   allocates
+//@   ensures[C20] result1 != nil ==> result0 == nil
+//@   ensures[C20] result1 == nil ==> result0 != nil
+//@   ensures[C20] result1 == nil ==> idsvalid(result0.partyIDs)
+//@   ensures[C20] result1 == nil ==> inslice(result0.partyIDs, info.SelfID)
+//@   ensures[C20] result1 == nil ==> forall(x, party.ID, inslice(result0.partyIDs, x) == inslice(info.PartyIDs, x))
+//@   ensures[C20] result1 == nil ==> (info.Threshold >= 0 && info.Threshold <= len(result0.partyIDs) - 1 && len(result0.partyIDs) > 0)
+//@   ensures result1 == nil ==> (result0.hash != nil && result0.hash.h != nil && result0.info.Group == info.Group && result0.info.SelfID == info.SelfID && result0.info.Threshold == info.Threshold && fresh(result0) && !held(result0.mtx))
